@@ -127,6 +127,13 @@ def rule_c(repo, chk):
     chk.touch(f)
     g = f.cfg()
     ev = f.params[1]
+    # the walk variable: the event whose counter is decremented (the parameter itself, or a local the walk was started from it with)
+    for n_ in g.nodes:
+        if n_.kind == 'stmt' and isinstance(n_.ast, ast.AugAssign) and isinstance(n_.ast.op, ast.Sub) and isinstance(n_.ast.target, ast.Attribute) \
+                and n_.ast.target.attr == 'effects' and isinstance(n_.ast.target.value, ast.Name):
+            wv = n_.ast.target.value.id
+            if wv != ev and any(isinstance(v, ast.Name) and v.id == ev for v in pat.local_feeds(f, wv)):
+                ev = wv
     fires = [n for n in g.nodes if n.kind == 'stmt' and pat.fires(n.ast, 'child:complete', f)]
     need(fires, 'C05.c: no fire of <name>_complete in the completion walk')
     decs = [n for n in g.nodes if n.kind == 'stmt' and isinstance(n.ast, ast.AugAssign) and src(n.ast.target) == f'{ev}.effects'
@@ -139,7 +146,7 @@ def rule_c(repo, chk):
     unlink = [n for n in g.nodes if n.kind == 'stmt' and (
         any(call_name(c) == 'delattr' and len(c.args) == 2 and src(c.args[0]) == ev and pat.is_const(c.args[1], 'cause') for c in calls_in(n.ast))
         or (isinstance(n.ast, ast.Delete) and any(src(x) == f'{ev}.cause' for x in n.ast.targets)))]
-    moves = [n for n in g.nodes if n.kind == 'stmt' and isinstance(n.ast, ast.Assign) and src(n.ast.targets[0]) == ev]
+    moves = [n for n in g.nodes if n.kind == 'stmt' and isinstance(n.ast, ast.Assign) and src(n.ast.targets[0]) == ev and any(k == 'loop' for k, _a in n.ctx)]
     for n in fires:
         q = pat.guarded_by(g, n, zero_edge, start=head)
         chk.ob('c', f.ref, '<name>_complete is fired only when the counter is not positive', q is None, loc(f, n.ast),
@@ -293,8 +300,14 @@ def rule_f(repo, chk):
     cur = 'self._currently_handling'
     cause = [n for n in g.nodes if n.kind == 'stmt' and ev in pat.stores_attr(n.ast, 'cause')]
     own = [n for n in g.nodes if n.kind == 'stmt' and ev in pat.stores_attr(n.ast, 'effects')]
-    inc = [n for n in g.nodes if n.kind == 'stmt' and isinstance(n.ast, ast.AugAssign) and src(n.ast.target) == f'{cur}.effects'
+    def _x(n, text):
+        return pat.expand_alias(f, n, text)        # `handling = self._currently_handling` read once into a local (same thread: no race)
+    inc = [n for n in g.nodes if n.kind == 'stmt' and isinstance(n.ast, ast.AugAssign) and _x(n, src(n.ast.target)) == f'{cur}.effects'
            and isinstance(n.ast.op, ast.Add) and pat.is_const(n.ast.value, 1)]
+    aliases_ = {src(n.ast.targets[0]) for n in g.nodes if n.kind == 'stmt' and isinstance(n.ast, ast.Assign) and src(n.ast.value) == cur and isinstance(n.ast.targets[0], ast.Name)}
+
+    def mentions_cur(t):
+        return cur in src(t) or any(a_ in Q.names_used(t) for a_ in aliases_)
     chk.ob('f', f.ref, '_fire links a new event to the currently handled one (cause, own counter, cause counter)', bool(cause and own and inc),
            loc(f, f.node), detail=f'cause stores {len(cause)}, own-counter stores {len(own)}, increments {len(inc)}', discr='link-exists')
     if not (cause and own and inc):
@@ -314,17 +327,17 @@ def rule_f(repo, chk):
             chk.ob('f', f.ref, f'whenever {a} is set, {b} is set on the same path', bad is None, loc(f, an[0].ast),
                    path=pat.path_lines(bad) if bad else None, discr=f'pair:{a}->{b}')
     for n in cause:
-        chk.ob('f', f.ref, 'the cause is the currently handled event', src(n.ast.value) == cur, loc(f, n.ast), discr='cause-value')
-        q = pat.guarded_by(g, n, pat.test_edge(lambda t, pol: pol == 'T' and "'cause'" in src(t) and cur in src(t)))
+        chk.ob('f', f.ref, 'the cause is the currently handled event', _x(n, src(n.ast.value)) == cur, loc(f, n.ast), discr='cause-value')
+        q = pat.guarded_by(g, n, pat.test_edge(lambda t, pol: pol == 'T' and "'cause'" in src(t) and mentions_cur(t)))
         chk.ob('f', f.ref, 'linking happens only when the currently handled event is itself tracked', q is None, loc(f, n.ast),
                path=pat.path_lines(q) if q else None, discr='tracked-guard')
-        q = pat.guarded_by(g, n, pat.test_edge(lambda t, pol: pat.fact_matches(pat.compare_fact(t, pol), cur, ('is not', '!='), 'None')))
+        q = pat.guarded_by(g, n, pat.test_edge(lambda t, pol: any(pat.fact_matches(pat.compare_fact(t, pol), c_, ('is not', '!='), 'None') for c_ in [cur, *aliases_])))
         chk.ob('f', f.ref, 'linking happens only when an event is being handled', q is None, loc(f, n.ast), discr='handling-guard')
     for n in own:
         chk.ob('f', f.ref, 'the new event counts itself once', src(n.ast.value) == '1', loc(f, n.ast), discr='own-counter-one')
     # tracked ⇒ linked: on the owner branch, when the guard holds, the link statements are passed before the append
     for tn in g.nodes:
-        if tn.kind == 'test' and "'cause'" in src(tn.ast) and cur in src(tn.ast):
+        if tn.kind == 'test' and "'cause'" in src(tn.ast) and mentions_cur(tn.ast):
             for e in tn.succ:
                 if e.kind == 'T':
                     for a in apps:
